@@ -66,7 +66,8 @@ ObsField(ev, f) ==
     CASE f = "stack" -> HexSeq(ev.stack) [] f = "alt" -> HexSeq(ev.alt) [] f = "cond" -> ev.cond [] f = "pc" -> ev.pc [] f = "opcount" -> ev.opcount
       [] f = "cbegin" -> ev.cbegin [] f = "cspos" -> ev.cspos [] f = "oppos" -> ev.oppos [] f = "weight" -> ev.weight [] f = "done" -> ev.done
       [] f = "seq" -> ev.seq [] f = "tcei" -> ev.tce.i [] f = "tcek" -> H(ev.tce.k)
-Mismatch(s, ev) == LET e == ExpView(s) IN {f \in (SetOf(cur.cmp) \cap DOMAIN e) : e[f] # ObsField(ev, f)}
+\* the opcode position only means something in tapscript (BIP342 signatures commit to it); elsewhere it is not compared
+Mismatch(s, ev) == LET e == ExpView(s) IN {f \in (SetOf(cur.cmp) \cap DOMAIN e) : (f = "oppos" => s.ctx.sigver = "TAPSCRIPT") /\ e[f] # ObsField(ev, f)}
 
 \* printable form of the expected state
 Show(s) == [stack |-> [i \in 1..Len(s.vm.stack) |-> BytesToHex(s.vm.stack[i])],
